@@ -276,7 +276,39 @@ def bound_name_clash(args, _limit=20000):
         if isinstance(v, (tuple, list)):
             return any(top(y) for y in v)
         return False
-    return any(top(a) for a in args)
+    if any(top(a) for a in args):
+        return True
+    # capture risk: a name bound inside one operand occurs FREE in a sibling operand (mangled bound names are
+    # unique per binder object, so this only happens after a shared binder was stripped from one sibling)
+    operands = []
+    for a in args:
+        if isinstance(a, Funsor):
+            operands.append(a)
+        elif isinstance(a, (tuple, list)):
+            operands.extend(x for x in a if isinstance(x, Funsor))
+    if len(operands) < 2:
+        return False
+    bound_in = []
+    for o in operands:
+        names = set()
+        stack = [o]
+        seen = set()
+        while stack and len(seen) < _limit:
+            t = stack.pop()
+            if id(t) in seen:
+                continue
+            seen.add(id(t))
+            b = getattr(t, "bound", None)
+            if b:
+                names.update(b)
+            stack.extend(c for c in subfunsors(t) if not isinstance(c, Variable))
+        bound_in.append(names)
+    for i, o in enumerate(operands):
+        free = set(getattr(o, "inputs", ()))
+        for j, names in enumerate(bound_in):
+            if i != j and names & free:
+                return True
+    return False
 
 
 def term_size(t, cap=10000):
